@@ -141,7 +141,7 @@ def S12(inp, n):
     now = inp.real('now', 0)
     clock = so.Clock(now)
     a, tr, cons = _mk(inp, 'a', ('b', 'c'), clock, dyn)
-    p = so.sym_state(inp, a, now, n, role=F, term_hi=4, base_hi=3, connected=())
+    p = so.sym_state(inp, a, now, n, role=F, term_hi=4, base_hi=3, connected=('r0',), observers=['r0'])      # a read-only peer is connected: it is no member
     put(a, 'raftElectionDeadline', now + 100)
     x0, i0, i1, c0 = (inp.int(k, -5, 5) for k in ('x0', 'i0', 'i1', 'c0'))
     a.x = x0
